@@ -38,9 +38,10 @@ def evidence_extra():
     return {'oracle_selfcheck': dict(_SC)}
 
 
-S_LAT = [-90.0, -89.0, -60.0, -30.0, -1e-9, 0.0, 1e-9, 30.0, 60.0, 89.0, 90.0]
+S_LAT = [-90.0, -89.0, -60.0, -30.0, -1e-9, 0.0, 1e-9, 30.0, 60.0, 89.0, 90.0, 66.5, -75.0, 88.5, -88.9]
 S_AZ = [0.0, 1e-9, 30.0, 45.0, 90.0, 135.0, 180.0, 270.0, 359.999999, 360.0]
-S_DIST = [0.0, 1e-3, 1.0, 1e3, 1e5, 1e6, 5e6, 1e7, 1.5e7, 2e7]
+S_DIST = [0.0, 1e-3, 1.0, 1e3, 1e5, 1e6, 5e6, 1e7, 1.5e7, 2e7,
+          1e-6, 1e-4, 4.9e-4, 5.1e-4, 9.9e-4]      # below the millimetre the inverse solution is rounded to
 LON1 = [-180.0, 0.0, 10.0, 180.0]
 
 
